@@ -23,9 +23,14 @@ ASSUMPTIONS = [
     "manual_acks is read as suppressing the automatic PUBACK / PUBREC; the PUBCOMP answering a known PUBREL is always automatic (the API has no manual PubComp: Request::PubComp is unimplemented!())",
     "Publish content is (qos, pkid, topic, payload); dup/retain are never touched by state.rs and are fixed to false by the driver",
     "dev profile (overflow checks on); last_incoming/last_outgoing Instants and log lines are not modelled",
-    "the event-loop half (select guard, pending replay, readb batches) is proved about Client/Loop.v, a pure model written after eventloop.rs; it is tied to the real v4 EventLoop by the end-to-end loop driver "
-    "(coverage.loop_*): deterministic histories only (cut where tokio's select! would choose at random); the v5 event loop (same code shape, same two fix: commits) is not driven end to end",
-    "tokio (timers, select! fairness), the keep-alive arm, pending_throttle and network timeouts are outside the loop model; keep-alive is set to 3600 s in the loop driver so it never fires",
+    "the event-loop half (select guard, pending replay, readb batches) is proved about Client/Loop.v (v4) and Client/Loop5.v (v5), pure models written after eventloop.rs and v5/eventloop.rs; "
+    "each is tied to its real EventLoop by the end-to-end loop driver with the same op language (coverage.loop_*, loop_v5_*): deterministic histories only (cut where tokio's select! would choose at random)",
+    "v5 loop: the broker's CONNACK carries session_present, receive-maximum and topic-alias-maximum only; the C07 window monitor on v5 traces uses min(receive-maximum of the last CONNACK, configured limit), "
+    "an absent receive-maximum counting as 65535 (the client itself keeps the previous connection's limit in that case: never more than the monitor allows); a CONNACK announcing receive-maximum 0 is refused "
+    "(ConnFail) and, as the code stands, the connection then stays in use with the previous limit: modelled as is, the monitors attach no claim to it; the in-order retransmission clause of C11 is v4-only "
+    "(v5 clean() returns index order: there is no last_puback); topic aliases are not exercised through the loop",
+    "tokio (timers, select! fairness), the keep-alive arm and network timeouts are outside the loop model; pending_throttle is in the driver glue (virtual time), not in the Coq model beyond TakeCancelled; "
+    "keep-alive is set to 3600 s in the loop driver so it never fires",
 ]
 
 ANS = re.compile(r"^(OK|ERR) (\[.*?\]|\S+) EV\[(.*?)\] INFL (\d+) COLL (\d)$")
@@ -943,6 +948,8 @@ class LoopMon:
                 if clash:
                     self.v("C07", "%s written while id %d still belongs to the unacknowledged %s of payload %s" % (
                         w, i, "release" if clash[0][1] == "R" else "publish", clash[0][0]))
+                if x is not None and x[0] == "X":
+                    self.v("C11", "%s was sent before the last CONNACK without session (session_present = 0) and is sent again on the new session" % w)
                 if x is not None and x[0] in "UR":
                     if x[1] != i:
                         self.v("C11", "%s retransmitted with id %d, originally %d" % (w, i, x[1]))
@@ -955,6 +962,8 @@ class LoopMon:
                 if tag not in self.first:
                     self.first.append(tag)
                 pos = self.first.index(tag)
+                if self.ver == "5":
+                    self.order_ok = False      # v5 clean() returns index order (no last_puback): the order clause is v4's (c11_order_v4)
                 if self.order_ok and self.failures >= 1 and pos < self.conn_last:
                     self.v("C11", "after %d failure(s) the resumed session sent %s (originally sent as number %d) after a publish originally sent as number %d: not the original order %s" % (
                         self.failures, w, pos + 1, self.conn_last + 1, [g for g in self.first if self.st.get(g, ["A"])[0] in "UR"]))
@@ -1102,7 +1111,13 @@ def gen_loop_history(rng, model, mx, style="mixed", ver="4"):
                 break
             if a.startswith(("ERROR", "NOCONN")):
                 unacked.clear(); del rel[:]
-                accept(1); note(do("POLL"))
+                accept(1); a = do("POLL"); note(a)
+                for _ in range(40):
+                    # v5: the notifications the old connection left unread, then the CONNACK, come out
+                    # first (no time passes): the scheduled broker writes below start after them
+                    if not v5 or a.startswith("EVENT I(CONNACK") or not a.startswith(("EVENT", "ERROR ConnFail")):
+                        break
+                    a = do("POLL"); note(a)
                 # the broker talks during the throttle waits of the resumed session
                 for _ in range(1 + rng.below(3)):
                     btag[0] += 1
@@ -1937,10 +1952,19 @@ def run(ctx):
     ctx.cov["loop_histories_cut_at_select_ambiguity"] = lp.get("truncated", 0)
     ctx.cov["loop_samples"] = lp.get("samples", [])[:1]
     ctx.cov["loop_read_burst_scenarios_v4_v5"] = lp.get("bursts", 0)
-    ctx.cov["loop_rule"] = ("end to end: the real rumqttc::EventLoop (v4) over the in-memory transport hook under paused tokio time with a scripted broker "
-                            "(harness bin clientloop) against Client/Loop.v (ocaml driver, loop mode): model-guided random histories (user sends, polls, broker acks in and out of order, "
-                            "unsolicited acks, drops incl. inside a read batch, reconnects with/without session, second failure before pending is drained), max_inflight in {1,2,3,5}; "
-                            "a history is cut where both the network and the request arm of select! are ready (tokio picks at random)")
+    ctx.cov["loop_v4_histories"] = lp.get("by_version", {}).get("4", 0)
+    ctx.cov["loop_v5_histories"] = lp.get("by_version", {}).get("5", 0)
+    ctx.cov["loop_generator_histogram"] = lp.get("groups", {})
+    ctx.cov["loop_v5_trigger_histogram"] = lp.get("nontrivial_v5", {})
+    ctx.cov["loop_rule"] = ("end to end: the real rumqttc::EventLoop (v4) and rumqttc::v5::EventLoop over the in-memory transport hook under paused tokio time with a scripted broker "
+                            "(harness bin clientloop; LNEW / LNEW5) against Client/Loop.v and Client/Loop5.v (ocaml driver, loop mode), answer by answer; the C07/C10/C02/C11 loop monitors read the "
+                            "implementation's answers of both versions. Per version: model-guided random histories in four styles (mixed: user sends, polls, broker acks in and out of order, unsolicited acks, "
+                            "drops incl. inside a read batch, reconnects with/without session, second failure before pending is drained; order: QoS1 in-order with repeated failures; burst: 9-25 packets readable "
+                            "in one poll; throttle: pending_throttle > 0 with broker writes during the wait), max_inflight in {1,2,3,4,5}, plus the exhaustive families: every sequence of %d moves over "
+                            "{publish QoS1, publish QoS2, PUBACK 1, PUBACK 2, PUBREC 1, PUBCOMP 1, drop+resume, drop+new session} (v5 also: PUBREC 1 with a failure reason, drop+resume with receive-maximum 1, "
+                            "server DISCONNECT) for max_inflight 1 and 2, polled to idle after each move. v5 only: every CONNACK carries a receive-maximum from {absent, 1, 2, max, max+1, 65535, rarely 0}, "
+                            "acks carry reason codes now and then, the server sometimes sends DISCONNECT instead of closing. "
+                            "A history is cut where both the network and the request arm of select! are ready (tokio picks at random)" % (4 if th else 3))
     if r["driver_failure"]:
         ctx.violation("driver-failed", r["driver_failure"], False, "a driver did not answer every op")
         return
@@ -2001,7 +2025,8 @@ def run(ctx):
                 reported = True
             elif lp["div"]:
                 d = lp["div"][0]
-                content = "# %s: correspondence EventLoop (implementation) = Client.Loop (Coq model) broken; no loop monitor failed.\n# last op: impl %r, model %r\n" % (prop, d["impl"], d["model"])
+                content = "# %s: correspondence EventLoop v%s (implementation) = Client.Loop%s (Coq model) broken; no loop monitor failed.\n# last op: impl %r, model %r\n" % (
+                    prop, d.get("version", "4"), "5" if d.get("version") == "5" else "", d["impl"], d["model"])
                 content += "\n".join(d["history"]) + "\n"
                 ctx.violation("correspondence-loop", content, False, "event loop and Client/Loop.v differ (%d diverging histories); monitors green" % len(lp["div"]))
                 reported = True
@@ -2046,7 +2071,7 @@ def replay(ctx, path):
         txt = "\n".join(lines) + "\n"
         _, impl, _ = lib.run_on_text(lexe, txt)
         _, model, _ = lib.run_on_text(mexe, txt, args=["loop"])
-        mon = LoopMon(int(lines[0].split()[1]))
+        mon = LoopMon(int(lines[0].split()[1]), "5" if lines[0].startswith("LNEW5") else "4")
         rc = 0
         for l, a, m in zip(lines, impl, model):
             print("%-34s impl[%s]  model[%s]%s" % (l, a, m, "" if a == m else "   <-- DIFFERS"))
